@@ -165,6 +165,7 @@ func (n *Notifier) PublishContext(ctx context.Context, key any, value any) {
 		successCases = append(successCases, reflect.SelectCase{Dir: reflect.SelectSend, Chan: keySubscriber.target, Send: valueRef})
 	}
 
+	verifPoint("not.publish.begin", n, len(successCases))
 	for len(successCases) != 0 {
 		var (
 			exitIndex, _, _ = reflect.Select(append(append(append(make([]reflect.SelectCase, 0, len(exitCases)+len(failureCases)+len(successCases)), exitCases...), failureCases...), successCases...))
@@ -172,6 +173,7 @@ func (n *Notifier) PublishContext(ctx context.Context, key any, value any) {
 			successIndex    = failureIndex - len(failureCases)
 		)
 
+		verifPoint("not.select", n, exitIndex)
 		switch {
 		case exitIndex < len(exitCases):
 			return
